@@ -265,9 +265,9 @@ def _matches(entry: dict[str, Any], v: Violation) -> bool:
         return False    # a finding without a signature matches nothing (never a blanket)
     env = {'case': _Dot(v.case), 'clause': v.clause, 're': re, 'len': len, 'abs': abs,
            'str': str, 'int': int, 'any': any, 'all': all, 'isinstance': isinstance,
-           'min': min, 'max': max, 'set': set, 'sorted': sorted}
+           'min': min, 'max': max, 'set': set, 'sorted': sorted, 'enumerate': enumerate, 'range': range}
     try:
-        return bool(eval(sig, {'__builtins__': {}}, env))   # noqa: S307  (own committed file)
+        return bool(eval(sig, {'__builtins__': {}, **env}))   # noqa: S307  (own committed file; env as globals so nested generators see it)
     except Exception:
         return False
 
